@@ -136,7 +136,7 @@ fn check_inst(c: &InstCase, st: &mut Stats) -> Result<(), Failure> {
             ensure!(is_documented_unsupported(p), "converter-panic", "type {}: publishing panicked: {}", e.name, p);
             return Ok(());
         }
-        let mut g = Gen { root: &e.draft07, st: Style(c.seed) };
+        let mut g = Gen { root: &e.draft07, st: Style(c.seed), conservative: false };
         let inst = g.instance(&e.draft07, c.want_valid, 0);
         st.count(&format!("type:{}", e.name));
         let before = st.get("instance_rejected_by_type_schema");
@@ -639,7 +639,7 @@ fn check_enriched(c: &EnrichCase, st: &mut Stats) -> Result<(), Failure> {
         );
     }
     // differential on a handful of instances
-    let mut g = Gen { root: &entry.draft07, st: Style(c.seed) };
+    let mut g = Gen { root: &entry.draft07, st: Style(c.seed), conservative: false };
     let mut rejected = 0;
     for i in 0..8 {
         let inst = g.instance(&entry.draft07, i % 2 == 0, 0);
